@@ -13,7 +13,7 @@
 From Coq Require Import ZArith NArith List Bool Arith.
 From GV Require Import Base.Result Base.Host Gen.Instr Model.Num Model.Value Model.Machine
   Model.CompileExpr Spec.Ast Spec.Eval
-  Proofs.C01.MachineFacts Proofs.C01.Fragment Proofs.C01.Main Proofs.C01.C10Clauses Proofs.C01.Witness.
+  Spec.Printer Proofs.C01.MachineFacts Proofs.C01.Fragment Proofs.C01.Stages Proofs.C01.Main Proofs.C01.StageThms Proofs.C01.C10Clauses Proofs.C01.Witness.
 Import ListNotations.
 
 Theorem C10_and_short_circuit : forall sym_hash hstate host pb n l r vin (s : st hstate) v s',
@@ -71,19 +71,19 @@ Proof. exact truthy_spec. Qed.
 Print Assumptions C10_truth_test.
 
 (* the compiled program evaluates what the evaluator evaluates: same observable
-   host trace, same final host state, same value (programs of C01's stages 1-3) *)
+   host trace, same final host state, same value (every construct; C01 stages 1-4) *)
 Theorem C10_program_trace : forall sym_hash hstate host, declines_defer hstate host ->
   forall e vin h n v h' t,
-  frag e = true -> shape_ok e = true -> seq_ok true e = true ->
+  printable e = true -> known_K1 e = false -> known_K2 e = false -> labels_ok e = true ->
   eval_prog sym_hash hstate host n e vin h = ODone v (h', t) ->
   exists s0 fuel steps sfin,
     initial hstate (compile_prog sym_hash e) 0 vin h = Some s0 /\
     run hstate host fuel (compile_prog sym_hash e) s0 = REnd hstate sfin steps /\
     current_value hstate sfin = Some v /\ hs sfin = h' /\ observable (tr sfin) = t.
-Proof. exact stage3_program. Qed.
+Proof. exact all_programs. Qed.
 Print Assumptions C10_program_trace.
 
 (* non-vacuity: the demo program has a `&&` whose right operand is evaluated and
    an else-chain whose first arm is taken; it is in the fragment *)
-Example C10_ex_program : frag demo = true /\ shape_ok demo = true /\ seq_ok true demo = true.
+Example C10_ex_program : frag3 demo = true /\ shape_ok demo = true /\ seq_ok true demo = true.
 Proof. exact (conj (proj1 demo_in_fragment) (conj (proj1 (proj2 demo_in_fragment)) (proj1 (proj2 (proj2 demo_in_fragment))))). Qed.
